@@ -398,10 +398,31 @@ func errorHandled(f *ssa.Function, e ssa.Value) (bool, string) {
 					if bo.Op == token.EQL {
 						nonNil = ifi.Block().Succs[1]
 					}
-					for _, in := range nonNil.Instrs {
-						if call, ok := in.(*ssa.Call); ok {
-							if c := call.Common().StaticCallee(); c != nil && c.Name() == "Append" {
-								return true, "tested-and-converted"
+					// everything reached only through the non-nil branch
+					for _, blk := range f.Blocks {
+						if !dominatesBlock(nonNil, blk) || len(nonNil.Preds) != 1 {
+							continue
+						}
+						for _, in := range blk.Instrs {
+							switch x := in.(type) {
+							case *ssa.Call:
+								if reportsError(x, 0) {
+									return true, "tested-and-converted"
+								}
+							case *ssa.Return:
+								// another, non-nil error (an `error` or a pointer to a type that implements it) is returned in its place
+								for ri, res := range x.Results {
+									isErr := ri == returnsError(f) || types.Implements(res.Type(), errorType.Underlying().(*types.Interface))
+									if ex, isEx := res.(*ssa.Extract); isEx && !isErr {
+										isErr = types.Implements(ex.Type(), errorType.Underlying().(*types.Interface))
+									}
+									if !isErr {
+										continue
+									}
+									if c, isC := res.(*ssa.Const); !isC || !c.IsNil() {
+										return true, "tested-and-replaced-by-another-error"
+									}
+								}
 							}
 						}
 					}
@@ -850,4 +871,50 @@ func isLenCall(v ssa.Value) bool {
 func isZeroConst(v ssa.Value) bool {
 	c, ok := v.(*ssa.Const)
 	return ok && c.Value != nil && c.Value.ExactString() == "0"
+}
+
+// reportsError: the call appends to an error accumulator — multierror.Append itself, or a function / closure of
+// the repository whose body does (one level, e.g. a local `report := func(node, msg) { errs = multierror.Append(…) }`).
+func reportsError(call *ssa.Call, depth int) bool {
+	if c := call.Common().StaticCallee(); c != nil {
+		if c.Name() == "Append" && c.Pkg != nil && strings.Contains(c.Pkg.Pkg.Path(), "multierror") {
+			return true
+		}
+		if depth < 2 && load.InRepo(c) {
+			return bodyReports(c, depth)
+		}
+		return false
+	}
+	// a closure held in a local variable
+	v := call.Common().Value
+	if mc, ok := v.(*ssa.MakeClosure); ok {
+		if fn, ok := mc.Fn.(*ssa.Function); ok && depth < 2 {
+			return bodyReports(fn, depth)
+		}
+	}
+	if ld, ok := v.(*ssa.UnOp); ok {
+		if al, ok := ld.X.(*ssa.Alloc); ok && al.Referrers() != nil {
+			for _, ref := range *al.Referrers() {
+				if st, ok := ref.(*ssa.Store); ok {
+					if mc, ok := st.Val.(*ssa.MakeClosure); ok {
+						if fn, ok := mc.Fn.(*ssa.Function); ok && depth < 2 && bodyReports(fn, depth) {
+							return true
+						}
+					}
+				}
+			}
+		}
+	}
+	return false
+}
+
+func bodyReports(fn *ssa.Function, depth int) bool {
+	for _, b := range fn.Blocks {
+		for _, in := range b.Instrs {
+			if c, ok := in.(*ssa.Call); ok && reportsError(c, depth+1) {
+				return true
+			}
+		}
+	}
+	return false
 }
